@@ -38,27 +38,28 @@ partial def decodeGo (b : ByteArray) (i : Nat) (acc : List Char) : List Char :=
       let x := b[i+k]!.toNat
       if x &&& 0xC0 == 0x80 then some (x &&& 0x3F) else none
     else none
-  let bad := decodeGo b (i+1) ('�' :: acc)
+  -- (a thunk: evaluated only on the invalid branches — as a strict `let` it doubled the work at every non-ASCII byte)
+  let bad (_ : Unit) : List Char := decodeGo b (i+1) ('�' :: acc)
   if b0 < 0x80 then decodeGo b (i+1) (Char.ofNat b0 :: acc)
   else if b0 &&& 0xE0 == 0xC0 then
     match cont 1 with
     | some c1 =>
       let v := ((b0 &&& 0x1F) <<< 6) ||| c1
-      if v < 0x80 then bad else decodeGo b (i+2) (Char.ofNat v :: acc)
-    | none => bad
+      if v < 0x80 then bad () else decodeGo b (i+2) (Char.ofNat v :: acc)
+    | none => bad ()
   else if b0 &&& 0xF0 == 0xE0 then
     match cont 1, cont 2 with
     | some c1, some c2 =>
       let v := ((b0 &&& 0x0F) <<< 12) ||| (c1 <<< 6) ||| c2
-      if v < 0x800 || (0xD800 ≤ v && v ≤ 0xDFFF) then bad else decodeGo b (i+3) (Char.ofNat v :: acc)
-    | _, _ => bad
+      if v < 0x800 || (0xD800 ≤ v && v ≤ 0xDFFF) then bad () else decodeGo b (i+3) (Char.ofNat v :: acc)
+    | _, _ => bad ()
   else if b0 &&& 0xF8 == 0xF0 then
     match cont 1, cont 2, cont 3 with
     | some c1, some c2, some c3 =>
       let v := ((b0 &&& 0x07) <<< 18) ||| (c1 <<< 12) ||| (c2 <<< 6) ||| c3
-      if v < 0x10000 || v > 0x10FFFF then bad else decodeGo b (i+4) (Char.ofNat v :: acc)
-    | _, _, _ => bad
-  else bad
+      if v < 0x10000 || v > 0x10FFFF then bad () else decodeGo b (i+4) (Char.ofNat v :: acc)
+    | _, _, _ => bad ()
+  else bad ()
 
 def unhexChars (s : String) : List Char := decodeGo (unhexBytes s) 0 []
 def unhexStr (s : String) : String := String.ofList (unhexChars s)
